@@ -13,8 +13,11 @@ import (
 	"os"
 	"path/filepath"
 	"runtime/debug"
+	"sync/atomic"
 	"testing"
 	"time"
+
+	"github.com/privacybydesign/gabi"
 
 	"pgregory.net/rapid"
 
@@ -35,8 +38,50 @@ var (
 
 func thorough() bool { return *flagTier == "thorough" }
 
+// The library's hook variables are written exactly once per process (before any test runs). Runs
+// switch hooks on and off through an atomic pointer: library goroutines that are still winding
+// down from an earlier run may read the hook variables at any time, and re-installing them per run
+// would be a (harness-made) data race with those readers.
+type hookSet struct {
+	yield   func(string)
+	spawned func(string)
+	exited  func(string)
+	buggify func(string) bool
+}
+
+var activeHooks atomic.Pointer[hookSet]
+
+func setHooks(h *hookSet) { activeHooks.Store(h) }
+
+func installDispatchHooks() {
+	gabi.VerifInstallHooks(gabi.VerifHooks{
+		Yield: func(site string) {
+			if h := activeHooks.Load(); h != nil && h.yield != nil {
+				h.yield(site)
+			}
+		},
+		Spawned: func(name string) {
+			if h := activeHooks.Load(); h != nil && h.spawned != nil {
+				h.spawned(name)
+			}
+		},
+		Exited: func(name string) {
+			if h := activeHooks.Load(); h != nil && h.exited != nil {
+				h.exited(name)
+			}
+		},
+		Buggify: func(site string) bool {
+			if h := activeHooks.Load(); h != nil && h.buggify != nil {
+				return h.buggify(site)
+			}
+			return false
+		},
+	})
+}
+
 func TestMain(m *testing.M) {
 	flag.Parse()
+	installDispatchHooks()
 	if *flagKeys != "" {
 		kernel.KeyDir = *flagKeys
 	}
